@@ -262,6 +262,60 @@ def r5(cx):
         for c in ex:
             o = origin_of_operand(cb, c.args[0], through_calls="all")
             on_dest = any(p[0] in dparam for p in o.params) and any(x.primary.split("::")[-1] == "join" for x in o.calls)
+            if on_dest and c.primary.split("::")[-1] in ("exists", "try_exists") and len(c.dest) == 1:
+                # a test of the destination is harmless when the entry is still copied on both outcomes (e.g. `if exists { remove }`)
+                from ..core import bool_edges
+                ed, sw = bool_edges(cb, c.dest[0], c.target)
+                puts = {x.bb for x in cb.calls if x.bb in cb.live and x.names & {"std::fs::hard_link", "std::fs::copy"}}
+                if ed and puts:
+                    skips = False
+                    for tgt, lab in ed.items():
+                        r2 = cb.reachable_from([tgt], avoid=puts)
+                        nexts = [x.bb for x in cb.calls if x.bb in cb.live and x.primary.split("::")[-1] == "next" and cb.in_cycle(x.bb)]
+                        if any(x in r2 for x in nexts) or any(x in r2 for x, k in exits(cb) if k in ("ok", "tail")):
+                            skips = True
+                    on_dest = skips
             cx.check(not on_dest, "`%s`: the copy is not gated by a test of the destination entry" % name, "restore-copy-skips-existing|%s" % name, c.where(),
                      "`%s` tests whether the destination entry exists before copying: a file of the discarded timeline with the same name is kept instead of being replaced" % name)
         cx.ok("`%s` inspected for destination tests (%d path tests)" % (name, len(ex)), cb.where())
+
+
+@rule("C14", "C14.R6", "link-or-copy never copies onto a destination that may already be a link of the source")
+def r6(cx):
+    """`if fs::hard_link(src, dst).is_err() { fs::copy(src, dst)? }` is how tables are put into a checkpoint and back.
+    hard_link also fails when `dst` exists; if it exists because an earlier run linked it, `dst` IS `src` (same inode) and
+    fs::copy opens it with O_TRUNC first: the live table is truncated to zero bytes.  Decided crate-wide: wherever a copy is
+    the fallback of a failed hard link to the same destination, a removal of that destination dominates the link attempt
+    (or the function proves the destination directory fresh)."""
+    f = cx.f
+    n = 0
+    for b in f.scan_bodies():
+        hl = [c for c in b.calls if c.bb in b.live and c.names & {"std::fs::hard_link"}]
+        if not hl:
+            continue
+        cps = [c for c in b.calls if c.bb in b.live and c.names & {"std::fs::copy"}]
+        rms = [c for c in b.calls if c.bb in b.live and c.names & {"std::fs::remove_file"}]
+        for h in hl:
+            hd = {id(x) for x in origin_of_operand(b, h.args[1]).calls}
+            fall = [c for c in cps if c.bb in b.reachable_after([h.bb]) and ({id(x) for x in origin_of_operand(b, c.args[1]).calls} & hd or not hd)]
+            if not fall:
+                continue
+            n += 1
+            same = lambda op: ({id(x) for x in origin_of_operand(b, op).calls} & hd) or not hd
+            pre = [r for r in rms if same(r.args[0])]
+            # the link attempt may be reached without the removal only on the `destination does not exist` edge
+            from ..core import bool_edges
+            cut = set()
+            for e_ in b.calls:
+                if e_.bb in b.live and e_.primary.split("::")[-1] in ("exists", "try_exists") and e_.args and same(e_.args[0]) and len(e_.dest) == 1:
+                    ed, sw = bool_edges(b, e_.dest[0], e_.target)
+                    if ed:
+                        for tgt, lab in ed.items():
+                            if lab == frozenset({False}):
+                                cut.add((sw, tgt))
+            r_ = reach_cut(b, [0], avoid={x.bb for x in pre}, cut_edges=cut)
+            owner = f.fn_of(b).id
+            cx.check(bool(pre) and h.bb not in r_, "`%s`: an existing destination is removed before link-or-copy" % owner, "copy-over-own-link|%s" % owner, h.where(),
+                     "`%s` falls back to fs::copy when fs::hard_link fails, without first removing the destination: when the destination already is a hard link of the source "
+                     "(a second checkpoint into the same directory), the copy truncates the shared inode -- the LIVE table file becomes empty" % owner)
+    cx.floor("link-or-copy sites", n, 2)
